@@ -1,7 +1,7 @@
 (* C05/Properties.v - the property theorems of C05, and nothing else.
    Every theorem is closed by [exact <lemma>] and followed by Print Assumptions. *)
 From Coq Require Import NArith List Bool.
-From Morfuse Require Import Base.Arr C05.Model C05.Spec C05.ProofsCells C05.ProofsLib C05.ProofsHeap C05.Proofs C05.ProofsCor.
+From Morfuse Require Import Base.Arr C05.Model C05.Spec C05.ProofsCells C05.ProofsLib C05.ProofsHeap C05.Proofs C05.ProofsCor C05.ProofsVm.
 Import ListNotations.
 Local Open Scope N_scope.
 
@@ -30,17 +30,17 @@ Proof. exact run_refines_spec. Qed.
 Print Assumptions C05_call_protocol_refines_the_result_map.
 
 Theorem C05_every_operation_keeps_the_simulation :
-  forall sc h s o, R h s ->
-    fst (fst (m_step (sc, h) o)) = fst (fst (s_step (sc, s) o)) /\
-    snd (m_step (sc, h) o) = snd (s_step (sc, s) o) /\
-    R (snd (fst (m_step (sc, h) o))) (snd (fst (s_step (sc, s) o))).
+  forall sc m s o, RM m s ->
+    fst (fst (m_step (sc, m) o)) = fst (fst (s_step (sc, s) o)) /\
+    snd (m_step (sc, m) o) = snd (s_step (sc, s) o) /\
+    RM (snd (fst (m_step (sc, m) o))) (snd (fst (s_step (sc, s) o))).
 Proof. exact step_sim. Qed.
 Print Assumptions C05_every_operation_keeps_the_simulation.
 
 Theorem C05_every_reachable_state_is_related :
   forall ops,
-    fst (m_final m_init ops) = fst (s_final s_init ops) /\
-    R (snd (m_final m_init ops)) (snd (s_final s_init ops)).
+    fst (m_final ms_init ops) = fst (s_final s_init ops) /\
+    R (fst (snd (m_final ms_init ops))) (snd (s_final s_init ops)).
 Proof. exact reachable_R. Qed.
 Print Assumptions C05_every_reachable_state_is_related.
 
@@ -76,12 +76,13 @@ Print Assumptions C05_as_many_params_as_declared.
    live VMs, the variables, the temporaries and the script instances are unchanged; the only
    new thing is the host's own record holding its arguments *)
 Theorem C05_label_not_found_leaves_nothing :
-  forall sc h np prog args,
-    let st' := fst (m_step (sc, h) (OCall false np prog args)) in
-    let ob := snd (m_step (sc, h) (OCall false np prog args)) in
-    fst st' = sc /\ hc (snd st') = hc h /\ vms (snd st') = vms h /\ locs (snd st') = locs h /\
-    tcall (snd st') = tcall h /\ tmps (snd st') = tmps h /\
-    recs (snd st') = recs h ++ [(nrec h, mkRec args None)] /\
+  forall sc (m : mheap) np prog args,
+    let st' := fst (m_step (sc, m) (OCall false np prog args)) in
+    let ob := snd (m_step (sc, m) (OCall false np prog args)) in
+    let h := fst m in let h' := fst (snd st') in
+    fst st' = sc /\ snd (snd st') = snd m /\ hc h' = hc h /\ vms h' = vms h /\ locs h' = locs h /\
+    tcall h' = tcall h /\ tmps h' = tmps h /\
+    recs h' = recs h ++ [(nrec h, mkRec args None)] /\
     ocall ob = CNoLabel /\ onrun ob = instances (map fst (vms h)) (tcall h) /\
     onth ob = (length (pend sc) + length (paused sc))%nat.
 Proof. exact label_not_found_leaves_nothing. Qed.
@@ -215,8 +216,8 @@ Print Assumptions C05_thread_deletion_keeps_the_simulation.
    state a Pointer-typed cell belongs to a thread that is alive; in the specification a slot
    that shows `pending` names an alive thread or was forwarded to one *)
 Theorem C05_a_pending_holder_implies_an_alive_thread :
-  forall ops k p, holds (hc (snd (m_final m_init ops))) k p ->
-    exists rc, In (p, rc) (vms (snd (m_final m_init ops))).
+  forall ops k p, holds (hc (fst (snd (m_final ms_init ops)))) k p ->
+    exists rc, In (p, rc) (vms (fst (snd (m_final ms_init ops)))).
 Proof. exact pending_implies_alive. Qed.
 Print Assumptions C05_a_pending_holder_implies_an_alive_thread.
 
@@ -264,6 +265,39 @@ Theorem C05_a_slot_shows_the_entry_of_its_thread :
 Proof. exact slot_shows_result. Qed.
 Print Assumptions C05_a_slot_shows_the_entry_of_its_thread.
 
+(* ---------------------------------------------------------------- the VM state machine *)
+
+(* which branch NotifyDelete takes depends on the VM state (m_delete: Idling = deleted at once;
+   Running / Suspended = marked, freed by the tail of its Execute).  Between two thread runs - in
+   particular whenever a helper thread gives an order to a parked thread - every live VM is Idling:
+   Suspend (the end of `t wait e` and `t pause`) finds it Idling and leaves it Idling, and `t delete`
+   takes the immediate branch.  This is what the code must guarantee for a parked VM. *)
+Theorem C05_every_vm_is_idling_between_thread_runs :
+  forall sc m th, all_idle m -> all_idle (snd (m_run_thr sc m th)).
+Proof. exact run_thr_idle. Qed.
+Print Assumptions C05_every_vm_is_idling_between_thread_runs.
+
+Theorem C05_every_vm_is_idling_between_host_operations :
+  forall ops, all_idle (snd (m_final ms_init ops)).
+Proof. exact reachable_all_idle. Qed.
+Print Assumptions C05_every_vm_is_idling_between_host_operations.
+
+Theorem C05_an_order_to_a_parked_thread_leaves_every_vm_idling :
+  forall sc m t a, all_idle m -> all_idle (snd (helper_act mheap m_delete m_suspend sc m t a)).
+Proof. exact helper_act_idle. Qed.
+Print Assumptions C05_an_order_to_a_parked_thread_leaves_every_vm_idling.
+
+Theorem C05_suspend_leaves_an_idling_vm_as_it_is :
+  forall t m, lookup t (snd m) = Some VIdle -> m_suspend t m = m.
+Proof. exact suspend_idle_is_noop. Qed.
+Print Assumptions C05_suspend_leaves_an_idling_vm_as_it_is.
+
+Theorem C05_deleting_a_parked_thread_takes_the_immediate_branch :
+  forall t m, all_idle m ->
+    m_delete t m = match lookup t (snd m) with Some _ => (vm_kill t (fst m), del t (snd m)) | None => m end.
+Proof. exact delete_of_a_parked_thread_is_immediate. Qed.
+Print Assumptions C05_deleting_a_parked_thread_takes_the_immediate_branch.
+
 (* ---------------------------------------------------------------- the scheduler *)
 
 (* the resume loop never runs out of its fuel, and when it returns no waiter that is due
@@ -275,9 +309,9 @@ Proof. exact never_hangs. Qed.
 Print Assumptions C05_no_history_hangs.
 
 Theorem C05_resume_leaves_nothing_due :
-  forall (H : Type) h_end h_kill h_killx h_spawn h_spawned fuel s (h : H), (weight s <= fuel)%nat ->
-    frame (fst (fst (resume H h_end h_kill h_killx h_spawn h_spawned fuel s h))) = frame s /\
-    forall w, In w (pend (fst (fst (resume H h_end h_kill h_killx h_spawn h_spawned fuel s h)))) -> frame s < wdue w.
+  forall (H : Type) h_end h_kill h_exec h_suspend h_tail h_spawn h_spawned fuel s (h : H), (weight s <= fuel)%nat ->
+    frame (fst (fst (resume H h_end h_kill h_exec h_suspend h_tail h_spawn h_spawned fuel s h))) = frame s /\
+    forall w, In w (pend (fst (fst (resume H h_end h_kill h_exec h_suspend h_tail h_spawn h_spawned fuel s h)))) -> frame s < wdue w.
 Proof. exact resume_nothing_due. Qed.
 Print Assumptions C05_resume_leaves_nothing_due.
 
@@ -293,7 +327,7 @@ Proof. exact never_ub. Qed.
 Print Assumptions C05_no_history_touches_a_dead_cell.
 
 Theorem C05_every_reachable_heap_has_an_exact_registry :
-  forall ops, good (hc (snd (m_final m_init ops))).
+  forall ops, good (hc (fst (snd (m_final ms_init ops)))).
 Proof. exact reachable_heap_good. Qed.
 Print Assumptions C05_every_reachable_heap_has_an_exact_registry.
 
@@ -454,6 +488,30 @@ Example C05_forwarded_results :
     (CNone, [TD (DData 0 7); TD (DData 0 7); TPend; TD DNil; TD (DData 0 7)], 1%nat, 1%nat);
     (CNone, [TD (DData 0 7); TD (DData 0 7); TPend; TD DNil; TD (DData 0 7)], 1%nat, 1%nat);
     (CNone, [TD (DData 0 7); TD (DData 0 7); TD (DData 2 1); TD DNil; TD (DData 0 7)], 0%nat, 0%nat) ].
+Proof. vm_compute. reflexivity. Qed.
+
+(* orders from another thread to a parked thread.  Call 0 waits 5 ms; its helper re-arms the wait
+   after 1 ms (`t wait 5`: due at 6) and deletes the thread 1 ms later: the record and its copy
+   read NIL at frame time 2 - the VM was Idling, so it is deleted (and its result resolved) at once.
+   Call 1 pauses; its helper orders `t pause` after 1 ms (no effect) and `t wait 1` 2 ms later:
+   the thread resumes at frame time 4 and its value arrives. *)
+Example C05_orders_to_parked_threads :
+  map view (run [
+    OCall true 0 [mkLevel [] [SPark (Some 5) [(1, AWait 5); (1, ADelete)]] (FEnd (RLit (DData 0 1)))] [];
+    OCall true 0 [mkLevel [] [SPark None [(1, APause); (2, AWait 1)]] (FEnd (RLit (DData 0 2)))] [];
+    OCopy 0;
+    OAdvance 1; OExecute; OAdvance 1; OExecute; OAdvance 1; OExecute; OAdvance 1; OExecute ]) =
+  [ (COk true [], [TPend], 1%nat, 2%nat);
+    (COk true [], [TPend; TPend], 2%nat, 4%nat);
+    (CNone, [TPend; TPend; TPend], 2%nat, 4%nat);
+    (CNone, [TPend; TPend; TPend], 2%nat, 4%nat);
+    (CNone, [TPend; TPend; TPend], 2%nat, 4%nat);
+    (CNone, [TPend; TPend; TPend], 2%nat, 4%nat);
+    (CNone, [TD DNil; TPend; TD DNil], 1%nat, 2%nat);
+    (CNone, [TD DNil; TPend; TD DNil], 1%nat, 2%nat);
+    (CNone, [TD DNil; TPend; TD DNil], 1%nat, 1%nat);
+    (CNone, [TD DNil; TPend; TD DNil], 1%nat, 1%nat);
+    (CNone, [TD DNil; TD (DData 0 2); TD DNil], 0%nat, 0%nat) ].
 Proof. vm_compute. reflexivity. Qed.
 
 (* sensitivity of the invariant.  [protocol mc d] replays the call protocol on the bare cell heap
